@@ -499,6 +499,9 @@ class Model:
                     m.bound_self = callee
                     self.log("inline", node, callee=f"{m.mod.name}:{m.qualname}")
                     return I.call_function(m, pos, kw, node)
+                if callee.name == "cls" and not callee.attrs and callee.cls[1] in getattr(callee.cls[0], "classes", {}):
+                    # the `cls` of a classmethod called: an instance of that class is constructed
+                    return self.invoke(ClassRef(callee.cls[0], callee.cls[1]), pos, kw, node, name)
             return ("call", callee.name) + tuple(to_term(x) for x in pos)
         if isinstance(callee, tuple) and len(callee) == 3 and callee[0] == "rematch_method" and isinstance(callee[1], ReMatch):
             if callee[2] in ("group", "groups", "start", "end", "span") and all(isinstance(x, (int, str)) for x in pos) and not kw:
